@@ -146,6 +146,7 @@ OPS = {
     'make_1h_other': lambda: segno.make('World', error='H', micro=False),
     'make_2_align': lambda: segno.make('Version two has an alignment', version=2),
     'make_7_version': lambda: segno.make('seven', version=7, error='M', mask=3),
+    'make_8_version': lambda: segno.make('eight', version=8, error='Q', mask=5),
     'make_parts': lambda: segno.make(PARTS),
     'make_eci': lambda: segno.make('\xe4\xf6\xfc', encoding='utf-8', eci=True),
     'make_hanzi': lambda: segno.make('书读', mode='hanzi'),
